@@ -178,6 +178,7 @@ Proof.
   destruct (etgt e); try discriminate. cbn [target].
   destruct (ekd e).
   - cbn. intros S. eapply rebind_view; eauto.
+  - destruct (attr_unset w self (eattr e)); [|discriminate]. cbn. intros S. eapply rebind_view; eauto.
   - destruct (get_attr_cell w self (eattr e)) as [c|] eqn:Gc; [|discriminate]. intros Wc. eapply inplace_view; eauto.
   - destruct (get_attr_cell w self (eattr e)) as [c|] eqn:Gc; [|discriminate]. intros Wc. eapply inplace_view; eauto.
 Qed.
